@@ -72,7 +72,44 @@ type verifHost struct {
 	modules map[string]string
 }
 
+// GetBuiltinImport: the model host offers two trigger functions and one template (the latter is the one of the
+// repository's own testing host):
+//   import trigger minute from triggers;   trigger fn (minutes: int),           callback (elapsed: int),            `at`
+//   import trigger message from triggers;  trigger fn (topic: str, qos: int),   callback (topic: str, payload: str), `on`
+//   import templ FooFeature from templates; methods dim(percent: int) -> bool, set_temp(celsius: float) -> null,
+//                                           capabilities light (dim) / temperature (set_temp), mutually exclusive
 func (h verifHost) GetBuiltinImport(moduleName string, valueName string, span herrors.Span, kind pAst.IMPORT_KIND) (analyzer.BuiltinImport, bool, bool) {
+	fnType := func(ret ast.Type, params ...ast.FunctionTypeParam) ast.FunctionType {
+		return ast.NewFunctionType(ast.NewNormalFunctionTypeParamKind(params), span, ret, span).(ast.FunctionType)
+	}
+	param := func(name string, t ast.Type) ast.FunctionTypeParam {
+		return ast.NewFunctionTypeParam(pAst.NewSpannedIdent(name, span), t, nil)
+	}
+	switch moduleName {
+	case "triggers":
+		if kind != pAst.IMPORT_KIND_TRIGGER {
+			return analyzer.BuiltinImport{}, true, false
+		}
+		switch valueName {
+		case "minute":
+			return analyzer.BuiltinImport{Trigger: &analyzer.TriggerFunction{
+				TriggerFnType:  fnType(ast.NewNullType(span), param("minutes", ast.NewIntType(span))),
+				CallbackFnType: fnType(ast.NewNullType(span), param("elapsed", ast.NewIntType(span))),
+				Connective:     pAst.AtTriggerDispatchKeyword,
+				ImportedAt:     span,
+			}}, true, true
+		case "message":
+			return analyzer.BuiltinImport{Trigger: &analyzer.TriggerFunction{
+				TriggerFnType:  fnType(ast.NewNullType(span), param("topic", ast.NewStringType(span)), param("qos", ast.NewIntType(span))),
+				CallbackFnType: fnType(ast.NewNullType(span), param("topic", ast.NewStringType(span)), param("payload", ast.NewStringType(span))),
+				Connective:     pAst.OnTriggerDispatchKeyword,
+				ImportedAt:     span,
+			}}, true, true
+		}
+		return analyzer.BuiltinImport{}, true, false
+	case "templates":
+		return TestingAnalyzerHost{IsInvokedInTests: true}.GetBuiltinImport(moduleName, valueName, span, kind)
+	}
 	return analyzer.BuiltinImport{}, false, false
 }
 func (h verifHost) ResolveCodeModule(moduleName string) (string, bool, error) {
@@ -149,6 +186,11 @@ type verifTreeExec struct {
 }
 
 func (e verifTreeExec) GetBuiltinImport(moduleName string, toImport string) (ivalue.Value, bool) {
+	// trigger functions and templates have no run-time value; a host that offers them to the analyzer answers the
+	// interpreter's import with a placeholder
+	if moduleName == "triggers" || moduleName == "templates" {
+		return *ivalue.NewValueNull(), true
+	}
 	return nil, false
 }
 func (e verifTreeExec) ResolveModuleCode(moduleName string) (string, bool, error) {
